@@ -1,4 +1,4 @@
-import ProductMD.Proofs.NvraExact
+import ProductMD.Proofs.NvraFix
 /-!
 # C13 — RPM `name-[epoch:]version-release.arch` strings are parsed back to their parts
 
@@ -158,6 +158,77 @@ theorem C13_multiline_refused (s : Str) (h : isEol ((stripRpm s).dropWhile Cls.a
   rw [C13_parser_exact]
   unfold Spec.parseNvraDirect
   simp only [h, PM.NvraExact.p1_false]
+
+/-- **Canonical re-formatting is a fixed point for EVERY parse result**, not only on the documented shape: whatever
+string `s` parses (odd names, slashes or colons in version/release/arch, Unicode digits or leading zeros in the epoch,
+a final line feed …), the parts re-formatted as `name-epoch:version-release.arch` parse to the same parts.  The one
+exception is an architecture that is literally `rpm` (the canonical string then ends in `.rpm`, which is stripped). -/
+theorem C13_fixpoint_exact (s : Str) (p : Nvra) (h : parseNvra s = .ok p) (ha : p.arch ≠ some ['r', 'p', 'm']) :
+    parseNvra (canonNvra p) = .ok p := by
+  rw [C13_parser_exact] at h ⊢
+  unfold Spec.parseNvraDirect at h
+  simp only at h
+  have hline := PM.NvraExact.line_split (stripRpm s)
+  cases he : isEol ((stripRpm s).dropWhile Cls.any.mem) with
+  | false => rw [he, PM.NvraExact.p1_false] at h; cases h
+  | true =>
+    rw [he] at h
+    cases hp1 : Spec.p1 true ((stripRpm s).takeWhile Cls.any.mem) with
+    | none => rw [hp1] at h; cases h
+    | some q =>
+      obtain ⟨n, ep, v, rl, a⟩ := q
+      rw [hp1] at h
+      simp only at h
+      obtain ⟨⟨pre, P, hshape⟩, hdot⟩ := PM.NvraFix.p1_shape hp1
+      -- the epoch value and its canonical digits
+      have hE : ∃ E, p = { name := some n, epoch := E, version := some v, release := some rl, arch := some a }
+          ∧ (natStr E).length ≤ intMaxStrDigits := by
+        cases ep with
+        | none =>
+          simp only [Except.map, Except.ok.injEq] at h
+          exact ⟨0, h.symm, Nat.le_trans (natStr_len 0 1 (by decide) (by decide)) (by decide)⟩
+        | some D =>
+          simp only at h
+          cases hv : pyIntDigits D with
+          | error e => rw [hv] at h; cases h
+          | ok E =>
+            rw [hv] at h
+            simp only [Except.map, Except.ok.injEq] at h
+            exact ⟨E, h.symm, PM.NvraFix.pyIntDigits_canon hv⟩
+      obtain ⟨E, rfl, hlen⟩ := hE
+      have hcanon : canonNvra { name := some n, epoch := E, version := some v, release := some rl, arch := some a }
+          = PM.NvraFix.canonStr n (natStr E) v rl a := by
+        simp [canonNvra, pctS, PM.NvraFix.canonStr]
+      have harch : a ≠ ['r', 'p', 'm'] := fun e => ha (by rw [e])
+      -- no line feed in the canonical string
+      have hnl : '\n' ∉ PM.NvraFix.canonStr n (natStr E) v rl a := by
+        have hx := hline.2.1
+        rw [hshape] at hx
+        have hd : '\n' ∉ natStr E := fun hm => by
+          have := (natStr_dig E _ hm).cls
+          rw [PM.IdProof.nl_not_digit] at this; cases this
+        simp only [PM.NvraFix.canonStr, List.mem_append, List.mem_cons, not_or] at hx ⊢
+        exact ⟨hx.2.1, by decide, hd, by decide, hx.2.2.2.2.1, by decide, hx.2.2.2.2.2.2.1, by decide, hx.2.2.2.2.2.2.2.2⟩
+      have hstrip : stripRpm (PM.NvraFix.canonStr n (natStr E) v rl a) = PM.NvraFix.canonStr n (natStr E) v rl a := by
+        have := stripRpm_other (n ++ '-' :: (natStr E ++ ':' :: (v ++ '-' :: rl))) a hdot harch
+        simpa [PM.NvraFix.canonStr] using this
+      obtain ⟨hl1, hl2⟩ := PM.NvraFix.line_of_no_nl hnl
+      have hp1' := PM.NvraFix.p1_canon hp1 (natStr_ne_nil E) (fun c hc => (natStr_dig E c hc).cls)
+      rw [hcanon]
+      unfold Spec.parseNvraDirect
+      simp only [hstrip, hl1, hl2]
+      have : isEol ([] : Str) = true := rfl
+      rw [this, hp1']
+      simp only [pyIntDigits_natStr E hlen, Except.map]
+
+/-- What `Rpms._check_nevra` does outside the documented shape (the mechanism of finding F31, owned by C12): the
+"epoch is present" test is `':' in nevra`, so a colon in the directory part lets a name WITHOUT epoch through; it is
+filed under epoch 0. -/
+theorem C13_check_nevra_colon_elsewhere_witness :
+    (checkNevra "a:b/foo-1.0-1.src".toList).toOption
+      = some ("foo-0:1.0-1.src".toList,
+              { name := some "foo".toList, epoch := 0, version := some "1.0".toList, release := some "1".toList,
+                arch := some "src".toList }) := by decide +kernel
 
 /-! ### the property's own alphabets and the library's architecture table -/
 /-- letters, digits, `.`, `_`, `+` and the segment separator `-` -/
